@@ -32,6 +32,7 @@ type params struct {
 	Draws   int  // static only: draws per caller
 	Chunk   int  // reader granularity: 0 = one line per Read, n = n bytes per Read
 	Reuse   bool // every caller decodes into ONE Target variable, draw after draw, and keeps (shallow) copies of what it drew
+	UP      bool // scheduling points right after every unlock (what a caller took out of the critical section by reference can be overtaken)
 	Defs    bool // default headers whose value slice has spare capacity (as three -header flags with one key build it); every target repeats that key
 }
 
@@ -42,6 +43,9 @@ func (p params) name() string {
 	}
 	if p.Reuse {
 		s += ",callers-reuse-their-target-variable"
+	}
+	if p.UP {
+		s += ",points-after-unlocks"
 	}
 	return s
 }
@@ -140,6 +144,7 @@ type world struct {
 
 func (w *world) main() {
 	p := w.p
+	vsched.UnlockPoints = p.UP
 	var tr vegeta.Targeter
 	switch p.Kind {
 	case "http":
@@ -300,6 +305,9 @@ func plans() []plan {
 		// default headers with spare capacity, every target repeating the key: targets handed to different callers must not share memory
 		ps = append(ps, plan{params{Kind: kind, Targets: 2, Callers: 2, Defs: true}, -1})
 		ps = append(ps, plan{params{Kind: kind, Targets: 3, Callers: 2, Defs: true}, -1})
+		// a caller overtaken between its unlock and the decoding of what it read
+		ps = append(ps, plan{params{Kind: kind, Targets: 2, Callers: 2, UP: true}, -1}, plan{params{Kind: kind, Targets: 3, Callers: 2, Chunk: 7, UP: true}, ev.Pick(2, 3)},
+			plan{params{Kind: kind, Targets: 3, Callers: 3, UP: true}, ev.Pick(2, 3)})
 		// byte-granular reader: scheduling points in the middle of lines
 		ps = append(ps, plan{params{Kind: kind, Targets: 2, Callers: 2, Chunk: 7}, ev.Pick(2, 3)})
 		ps = append(ps, plan{params{Kind: kind, Targets: 2, Callers: 2, Chunk: 25}, ev.Pick(3, -1)})
